@@ -81,6 +81,18 @@ func New(id, level string) *Ctx {
 			seed = v
 		}
 	}
+	levelDetail := ""
+	switch level {
+	case "exploration", "fault_enumeration", "model_checking", "proof", "translation_validation", "other":
+	default:
+		// the evidence schema only knows the categories; keep free text as a detail
+		levelDetail = level
+		if strings.HasPrefix(level, "fault_enumeration") {
+			level = "fault_enumeration"
+		} else {
+			level = "exploration"
+		}
+	}
 	c := &Ctx{
 		ID: id, Level: level, Tier: tier, Seed: seed, Floor: 2,
 		Only:       os.Getenv("VERIF_ONLY"),
@@ -91,6 +103,9 @@ func New(id, level string) *Ctx {
 		counters:   map[string]int64{},
 		knownSeen:  map[string]string{},
 		known:      map[string]Finding{},
+	}
+	if levelDetail != "" {
+		c.extras["level_detail"] = levelDetail
 	}
 	if rp := os.Getenv("VERIF_REPLAY"); rp != "" {
 		if b, err := os.ReadFile(rp); err == nil {
